@@ -1,7 +1,8 @@
 (* C09 — Synchronization delivers the runtime's complete state however it must be split.
    This file contains only statements closed by [exact], their assumptions, and examples.
    Model: Model/SyncSplit.v (sender plugin.synchronize + recalcObjsPerSyncMsg with its
-   float64 arithmetic, receiver stub.collectSync/deliverSync, activation bookkeeping);
+   float64 arithmetic, receiver stub.collectSync/deliverSync and stub.close between two
+   connections of one stub value, activation bookkeeping);
    vocabulary of the statements: Spec/SyncSpec.v. *)
 From Coq Require Import List ZArith Bool Floats.SpecFloat.
 From NRI Require Import Model.SyncConsts Model.SyncSplit Spec.SyncSpec Proofs.SyncFloatProofs Proofs.SyncSplitProofs.
@@ -62,6 +63,63 @@ Theorem C09_handler_once :
   ss_calls st' = [(pods, ctrs)] /\ ss_acc st' = None /\ h pods ctrs = Some u.
 Proof. exact delivered_to_stub. Qed.
 Print Assumptions C09_handler_once.
+
+(* ---------------------------------------------------------------------------------- *)
+(* Per registration.  One stub value may be started again after its connection was lost or
+   after Stop; the chunks it has collected are part of that value.  A connection (session,
+   Spec/SyncSpec.v) is any list of groups sent flagged More, ended either by the message
+   not flagged More or by the loss of the connection before it (the runtime gave up because
+   a later chunk could not be sent, a time-out, a restart); close() runs between two
+   connections.  For ANY sequence of connections - any groups, any number of connections
+   cut off at any point, in any mixture with completed ones - the handler invocations are,
+   in order, exactly [session_delivery] of each connection: none for one cut off, exactly
+   one for a completed one, with the concatenation of the groups of THAT connection (each
+   object once, in arrival order, nothing of an earlier connection); and nothing collected
+   is left behind.  [close_resets_sync] is regenerated from stub.go on every run. *)
+Theorem C09_sessions_isolated :
+  forall (A B U : Type) (h : list A -> list B -> option (list U)) (ss : list (session A B)),
+  let st := stub_sessions (Some h) close_resets_sync stub_init (map session_msgs ss) in
+  ss_calls st = flat_map session_delivery ss /\ ss_acc st = None /\
+  (forall s, In s ss -> (length (session_delivery s) <= 1)%nat).
+Proof.
+  intros A B U h ss. cbv zeta.
+  exact (conj (proj1 (sessions_isolated A B U h ss))
+        (conj (proj2 (sessions_isolated A B U h ss)) (fun s _ => delivery_at_most_once A B s))).
+Qed.
+Print Assumptions C09_sessions_isolated.
+
+(* the case the statement was written for: any number of registrations that failed after any
+   number of accepted chunks, then one that completes - the handler has run exactly once,
+   with the state of the completed registration *)
+Theorem C09_failed_then_delivered :
+  forall (A B U : Type) (h : list A -> list B -> option (list U))
+         (failed : list (list (list A * list B))) (groups : list (list A * list B)) (lp : list A) (lc : list B),
+  ss_calls (stub_sessions (Some h) close_resets_sync stub_init
+             (map session_msgs (map (fun g => (g, SClosed)) failed ++ [(groups, SFinal lp lc)]))) =
+  [(concat (map fst groups) ++ lp, concat (map snd groups) ++ lc)].
+Proof. exact failed_then_delivered. Qed.
+Print Assumptions C09_failed_then_delivered.
+
+(* sender and receiver together after a restart: whatever state earlier connections left in
+   the stub value, after close() a delivered synchronisation means exactly one more handler
+   invocation, on exactly the runtime's state, and the runtime gets the handler's updates *)
+Theorem C09_handler_once_after_restart :
+  forall (A B U : Type) (h : list A -> list B -> option (list U)) (st : stub_state A B)
+         (pods : list A) (ctrs : list B) (s : list (chunk A B)) (u : list U) (st' : stub_state A B),
+  sync_good (stub_sync (Some h)) pods ctrs (stub_close close_resets_sync st) (Delivered s u st') ->
+  ss_calls st' = ss_calls st ++ [(pods, ctrs)] /\ ss_acc st' = None /\ h pods ctrs = Some u.
+Proof. exact delivered_after_restart. Qed.
+Print Assumptions C09_handler_once_after_restart.
+
+(* The reset in close() is what the three statements rest on: for the variant of the model
+   without it, C09_sessions_isolated is false - a chunk collected on a connection that was
+   then lost is handed to the handler of the next connection (witness in
+   C09_ex_sessions_no_reset below). *)
+Theorem C09_sessions_no_reset_refuted :
+  exists (h : list Z -> list Z -> option (list Z)) (ss : list (session Z Z)),
+    ss_calls (stub_sessions (Some h) false stub_init (map session_msgs ss)) <> flat_map session_delivery ss.
+Proof. exact sessions_no_reset_refuted. Qed.
+Print Assumptions C09_sessions_no_reset_refuted.
 
 (* ---------------------------------------------------------------------------------- *)
 (* Delivery (interpretation I4 of DESIGN 2.4).  If every group of at most minObjsPerMsg
@@ -222,3 +280,37 @@ Example C09_ex_receiver :
   ({| ss_acc := None; ss_calls := [([1; 5], [2; 3; 4])] |},
    [more_reply; more_reply; Some {| r_more := false; r_update := [2; 3] |}]).
 Proof. reflexivity. Qed.
+
+(* one stub value over three connections: the first is lost after two accepted chunks, the
+   second after one, the third completes - one invocation, with the third state only *)
+Definition ex_sessions : list (session Z Z) :=
+  [([([], [1; 2; 3; 4]); ([], [5; 6; 7; 8])], SClosed);
+   ([([10], [11])], SClosed);
+   ([([20; 21], [22; 23])], SFinal [] [24; 25])].
+
+Example C09_ex_sessions :
+  let st := stub_sessions (Some ex_h) close_resets_sync stub_init (map session_msgs ex_sessions) in
+  ss_calls st = [([20; 21], [22; 23; 24; 25])] /\ ss_acc st = None /\
+  flat_map session_delivery ex_sessions = [([20; 21], [22; 23; 24; 25])].
+Proof. repeat split. Qed.
+
+(* the same connections against the variant without the reset: the handler of the third
+   registration is handed the eleven stale objects of the two failed ones as well *)
+Example C09_ex_sessions_no_reset :
+  ss_calls (stub_sessions (Some ex_h) false stub_init (map session_msgs ex_sessions)) =
+  [([10; 20; 21], [1; 2; 3; 4; 5; 6; 7; 8; 11; 22; 23; 24; 25])].
+Proof. reflexivity. Qed.
+
+(* sender and receiver: nine objects of 400 after four of 10 against a limit of 1000 - the
+   first chunk of four is accepted, the next cannot be sent, the registration fails with the
+   chunk still collected; after close the same stub value synchronises [7] / [8; 9] and its
+   handler sees exactly that *)
+Example C09_ex_restart :
+  exists st1 s st2,
+    synchronize (xmit_size id id 49 2 1000) (stub_sync (Some ex_h)) recalc (sync_fuel (@nil Z) (repeat 10 4 ++ repeat 400 9))
+                [] (repeat 10 4 ++ repeat 400 9) stub_init = Failed FSplit [([], repeat 10 4, true)] st1 /\
+    ss_acc st1 = Some ([], repeat 10 4) /\
+    synchronize (xmit_size id id 49 2 1000) (stub_sync (Some ex_h)) recalc (sync_fuel [7] [8; 9])
+                [7] [8; 9] (stub_close close_resets_sync st1) = Delivered s [1; 2] st2 /\
+    ss_calls st2 = [([7], [8; 9])].
+Proof. eexists. eexists. eexists. vm_compute. repeat split. Qed.
